@@ -579,7 +579,8 @@ def mon_queue_form(steps, meta):
 
 
 def _expand_stamp(pat, clock):
-    return pat.replace("%%", "\0").replace("%s", str(clock)).replace("\0", "%")
+    # (%Z is only used by the run whose time zone has an empty abbreviation: it expands to nothing)
+    return pat.replace("%%", "\0").replace("%s", str(clock)).replace("%Z", "").replace("\0", "%")
 
 
 def mon_journal(steps, meta):
@@ -648,6 +649,8 @@ def mon_journal(steps, meta):
                 # [ts] [label] [pid] path
                 if not (1 <= len(f) <= 4) or f[-1] == "":
                     return "malformed journal line %r" % l
+                if "" in f:
+                    return "journal line %r has an empty field (an empty timestamp or label is omitted together with its tab)" % l
                 if meta.get("stamps"):
                     # the last field is the path of the event: the absolute path of an exec / write event, or the
                     # path of a queue event relative to the common parent (a project: its directory)
@@ -1156,6 +1159,27 @@ def mon_completed_exact(steps, meta):
     return None
 
 
+def mon_exec_completed(steps, meta):
+    """C10 for execution events (scenario exec_then_loader): 'either still completes the operation or reports an
+    error' - if the disturbed exec of an editor binary did not report an error, its loader was learnt: the process
+    then executes that loader and writes a plain file, and that write is queued"""
+    if not isinstance(meta, dict) or meta.get("scenario") != "exec_then_loader":
+        return None
+    i, st = _disturbed(steps)
+    if st is None or st.result != "ok":
+        return None
+    later = [x for x in steps[i + 1:] if x.op in HANDLER_OPS][:2]
+    if len(later) < 2 or any(x.result != "ok" for x in later):
+        return None
+    after = next((x.dump for x in steps[i + 1:] if x.dump is not None), None)
+    if after is None:
+        return None
+    if not any(p.startswith("/k/var/queue/") and e[0] == "link" for p, e in after.items()):
+        return ("the exec of the editor binary under a failing call (%s %s at call %s) reported no error, but its loader was not learnt: after executing the loader "
+                "the process is no longer an editor and its write was not queued" % (meta.get("callline"), meta.get("errno"), meta.get("k")))
+    return None
+
+
 def mon_resources(steps, meta):
     """C20: with a handler loaded exactly two descriptors are open (queue directory, journal) after every
     operation, none after release"""
@@ -1177,7 +1201,7 @@ MONITORS.update({
     "queue_form": mon_queue_form, "journal": mon_journal, "faithful": mon_faithful, "history": mon_history,
     "bursts": mon_bursts, "projects": mon_projects, "recovery": mon_recovery, "no_partial": mon_no_partial,
     "fault_reported": mon_fault_reported, "resources": mon_resources, "expected_handled": mon_expected_handled,
-    "completed_exact": mon_completed_exact, "partial_snapshot": mon_partial_snapshot, "snapshot_members": mon_snapshot_members,
+    "completed_exact": mon_completed_exact, "exec_completed": mon_exec_completed, "partial_snapshot": mon_partial_snapshot, "snapshot_members": mon_snapshot_members,
 })
 
 
